@@ -3,7 +3,8 @@
 set -u
 patch=$1; shift
 scr=$(mktemp -d /tmp/scr.XXXXXX)
-cp -r /repo/. "$scr"/
+# committed HEAD of /repo, so that contract edits in progress in the working tree do not leak into a regression run
+git -C /repo archive HEAD | tar -x -C "$scr"; git -C "$scr" init -q 2>/dev/null
 if ! git -C "$scr" apply "$patch" 2>/tmp/apply.err && ! git -C "$scr" apply --3way "$patch" 2>/tmp/apply.err && ! (cd "$scr" && patch -p1 --fuzz=3 -s < "$patch" 2>/tmp/apply.err >/dev/null); then echo "PATCH DOES NOT APPLY: $(head -3 /tmp/apply.err)"; rm -rf "$scr"; exit 3; fi
 rc=0
 for p in "$@"; do
